@@ -166,6 +166,12 @@ pub fn eval(ctx: &Ctx, case: &Case) {
                     "S=P1" => ss = lib_g1_affine(&pr.p1),
                     "S=ds" => ss = lib_g1_affine(&ds),
                     "S=infinity" => ss = lib_g1(&None, &BigUint::one()),
+                    "S=infinity/h=H2(M||0)" | "S=infinity/h=H2(M||1)" => {
+                        // universal-forgery shapes: if the pairing of O collapses w' to a constant, h = H2(M || const) verifies
+                        ss = lib_g1(&None, &BigUint::one());
+                        let w = if f.ends_with("0)") { vec![0u8; 384] } else { sm9::f12_bytes(&sm9::f12_one()) };
+                        hh = sm9::h2(&msg, &w);
+                    }
                     "S=off-curve(y+1)" => ss = lib_g1_raw(&sx, &((&sy + 1u32) % &pr.p)),
                     "S=off-curve(x+1)" => ss = lib_g1_raw(&((&sx + 1u32) % &pr.p), &sy),
                     "S=(0,0)" => ss = lib_g1_raw(&BigUint::zero(), &BigUint::zero()),
@@ -245,7 +251,7 @@ pub fn run(ctx: &Arc<Ctx>) {
         }
     }
     let nbase = ctx.tier.pick(4usize, 16);
-    let mut forges: Vec<String> = vec!["none", "rerandomised-S", "h=0", "h=1", "h=N-1", "h=N", "h=N+1", "h=2^256-1", "h+N", "S=-S", "S=2S", "S=P1", "S=ds", "S=infinity", "S=off-curve(y+1)", "S=off-curve(x+1)", "S=(0,0)", "msg-bitflip", "msg-extended", "id-changed", "other-master-public-key"].iter().map(|s| s.to_string()).collect();
+    let mut forges: Vec<String> = vec!["none", "rerandomised-S", "h=0", "h=1", "h=N-1", "h=N", "h=N+1", "h=2^256-1", "h+N", "S=-S", "S=2S", "S=P1", "S=ds", "S=infinity", "S=infinity/h=H2(M||0)", "S=infinity/h=H2(M||1)", "S=off-curve(y+1)", "S=off-curve(x+1)", "S=(0,0)", "msg-bitflip", "msg-extended", "id-changed", "other-master-public-key"].iter().map(|s| s.to_string()).collect();
     for b in 0..256 {
         forges.push(format!("h-bit:{}", b));
     }
